@@ -861,6 +861,17 @@ func OtherFeatures(names []string) []Feature {
 		b.use("zUser")
 		b.use("mList")
 	})
+	add("collidingImportWhosePointerNameCollides", "collide-names", func(b *BundleSpec, s int) {
+		// a colliding import with two nested referrers; re-inlining it into the first one leaves the second with a pointer whose
+		// generated name exists already: three rounds of conflict resolution are needed
+		ref := J{"$ref": AuxA + "#/definitions/cthing"}
+		b.Add(RootFile, P(simpleObj("rootCthing"), "definitions", "cthing"), P(simpleObj("preAX"), "definitions", "aHolderX"),
+			P(J{"type": "object", "properties": J{"x": ref}}, "definitions", "aHolder"), P(J{"type": "object", "properties": J{"y": ref}}, "definitions", "bHolder"))
+		b.Add(AuxA, P(simpleObj("auxCthing"), "definitions", "cthing"))
+		for _, n := range []string{"cthing", "aHolderX", "aHolder", "bHolder"} {
+			b.use(n)
+		}
+	})
 	add("unusedAliasOfCollidingImport", "collide", func(b *BundleSpec, s int) {
 		// a top-level alias of a colliding import that nothing refers to, next to a second referrer of the same import
 		b.Add(RootFile, P(simpleObj("rootGadget"), "definitions", "gadget"), P(J{"$ref": AuxA + "#/definitions/gadget"}, "definitions", "alias"),
